@@ -49,6 +49,22 @@ def c17_1(ctx):
     nf = reaching_def(ctx, hi, 'new_filepath', rec[0])
     ok = isinstance(nf, ast.Call) and unparse(nf.func) == 'self._locate_filename' and 'group(1)' in unparse(nf.args[0])
     ctx.check(ok, 'include:located-by-name', hi.site(), 'the file is located by the quoted name (pattern group 1) in the include directories', unparse(nf) if nf is not None else 'None')
+    # "already loaded" is decided by comparing path strings: each file must have exactly one spelling per search directory,
+    # so a name cannot contain a path separator unless the located path is canonicalised before it is compared and recorded
+    import re._parser as _P
+    from engine.rx import set_chars
+    rx_ = ctx.fold.class_const(AF, 'PATTERN_INCLUDE_FILE')
+    g1 = next((av for op, av in _P.parse(rx_.pattern, rx_.flags) if str(op) == 'SUBPATTERN' and av[0] == 1), None)
+    ok = False
+    cs = set()
+    if g1 is not None and len(g1[3]) == 1 and str(g1[3][0][0]) == 'MAX_REPEAT' and len(g1[3][0][1][2]) == 1 and str(g1[3][0][1][2][0][0]) == 'IN':
+        cs = set(set_chars(g1[3][0][1][2][0][1], False))
+        canon = isinstance(nf, ast.Call) and unparse(nf.func) in ('os.path.realpath', 'os.path.normpath', 'os.path.abspath')
+        ok = canon or not (cs & set('/\\'))
+        ok = ok and set('abcXYZ019_-.') <= cs
+    ctx.check(ok, 'include:one-spelling-per-file', 'src/bespokeasm/assembler/assembly_file.py:' + str(ctx.repo.cls(AF).node.lineno),
+              'an include name is a plain file name (letters, digits, "_", "-", "."): no separator, so one file cannot be named in two ways and escape the included-twice check',
+              f'name characters include {sorted(cs & set("/" + chr(92)))} and the located path is compared as spelled')
     # malformed include -> exit
     rr = [r for r in returns(hi)]
     g = ctx.cfg(hi)
@@ -143,6 +159,17 @@ def c17_6(ctx):
     ctx.check(ok, 'dirs:dedup-exact-realpath', eng.site(cmps[0]) if cmps else eng.site(),
               'two search directories are merged only when their real paths are identical',
               f'{[unparse(c) for c in cmps]} with {defs}')
+    # what survives de-duplication is the canonical path, not one of the spellings given (which one would depend on -I order)
+    fin = d[-1] if len(d) >= 2 else None
+    kept = None
+    if fin is not None and isinstance(fin.value, ast.Call) and unparse(fin.value.func) in ('set', 'list', 'frozenset', 'tuple') and len(fin.value.args) == 1:
+        kept = unparse(fin.value.args[0])
+    apps = [c for c in ast.walk(eng.node) if isinstance(c, ast.Call) and isinstance(c.func, ast.Attribute) and c.func.attr in ('append', 'add')
+            and kept is not None and unparse(c.func.value) == kept]
+    ok = bool(apps) and all(len(c.args) == 1 and unparse(c.args[0]) in defs and defs[unparse(c.args[0])].startswith('os.path.realpath(') for c in apps)
+    ctx.check(ok, 'dirs:canonical-path-kept', eng.site(apps[0]) if apps else eng.site(),
+              'the directory kept for a group of duplicates is the real path they share, so the paths shown in outputs do not depend on the order or spelling of -I options',
+              '; '.join(unparse(c) for c in apps) or 'no recognised collection of kept directories')
     asm = [c for c in ast.walk(eng.node) if isinstance(c, ast.Call) and unparse(c.func) == 'AssemblyFile']
     ok = len(asm) == 1 and unparse(asm[0].args[0]) == 'self._source_file'
     ld = [n for n, _ in calls_to(ctx, eng, {LOAD})]
@@ -158,6 +185,7 @@ RULES = [c17_1, c17_3, c17_5, c17_6]
 
 _A = 'assembler/assembly_file.py'
 MUTANTS = [
+    V('c17-include-name-with-slash', 'assembler/assembly_file.py', "([\\w\\.\\-\\_]+)(?:\\'|\\\")',", "([\\w\\.\\-\\_/]+)(?:\\'|\\\")',", 'C17.1'),
     V('c17-twice-allowed', _A, "            if new_filepath in assembly_files_used:\n                sys.exit(f'ERROR: {line_id} - assembly file included multiple times')\n", "", 'C17.1'),
     V('c17-private-copy', _A, "                assembly_files_used=assembly_files_used\n            )", "                assembly_files_used=set(assembly_files_used)\n            )", 'C17.1'),
     V('c17-not-recorded', _A, "                assembly_files_used.add(self.filename)\n", "                assembly_files_used = assembly_files_used | {self.filename}\n", 'C17.1'),
@@ -166,6 +194,7 @@ MUTANTS = [
     V('c17-zone-adopted', _A, "                            line_objects.extend(additional_line_objects)\n", "                            line_objects.extend(additional_line_objects)\n                            for lo in additional_line_objects:\n                                if isinstance(lo, SetMemoryZoneLine) and lo.compilable:\n                                    current_memzone = lo.memory_zone\n", 'C17.3'),
     V('c17-includer-scope-parent', _A, 'file_obj = AssemblyFile(new_filepath, self.label_scope.parent)', 'file_obj = AssemblyFile(new_filepath, self.label_scope)', 'C06.2'),
     V('c17-shared-condition-stack', _A, "                condition_stack = ConditionStack()\n", "                condition_stack = preprocessor.__dict__.setdefault('_cs', ConditionStack())\n", 'C17.5'),
+    V('c17-dedup-keeps-spelling', 'assembler/engine.py', "                deduplicated_dirs.append(left_path)", "                deduplicated_dirs.append(include_dirs[i])", 'C17.6'),
     V('c17-dedup-lower', 'assembler/engine.py', "                if left_path == right_path:", "                if left_path.lower() == right_path.lower():", 'C17.6'),
     V('c17-no-source-dir', 'assembler/engine.py', "include_dirs = [os.path.dirname(self._source_file)]+list(self._include_paths)", "include_dirs = list(self._include_paths) or [os.path.dirname(self._source_file)]", 'C17.6'),
     V('c17-missing-file-none', _A, "        if filepath is None:\n            sys.exit(f'ERROR: {line_id} - could not find file \"{filename}\" to include')\n", "", 'C17.1'),
